@@ -273,7 +273,7 @@ extern "C" void harness()
 	for(int step = 0; step < KK; step++) {
 		unsigned nkinds = (OBJ == 2 ? 11 : (IS_QUEUE ? 9 : 7));
 #ifdef FILTERS
-		const unsigned nk = nkinds; nkinds += 2;
+		const unsigned nk = nkinds; nkinds += 3;
 #endif
 #if OBJ == 2
 		const unsigned kDqn = nkinds++;
@@ -334,6 +334,10 @@ extern "C" void harness()
 #ifdef FILTERS
 		else if(kind == nk) {             // add a filter (to a copy or an original: later changes to either never affect the other)
 			if(m.nf[i] < MAXL) { uint32_t f = g->nextid++; obj(i)->appendFilter([f](uint32_t & a) { g_tr.add(1000u + f, a, 0); a += f; return true; }); m.fids[i][m.nf[i]++] = f; }
+		}
+		else if(kind == nk + 2) {         // a freshly built object that never had a listener or a filter (then swapped with / assigned from the others)
+			int j = free_slot();
+			if(j >= 0) { vf_havoc(g->store[j], sizeof(T)); new (g->store[j]) T(); m.alive[j] = true; m.n[j] = 0; m.nf[j] = 0; m.np[j] = 0; }
 		}
 		else if(kind == nk + 1) {         // remove the first filter ... there is no handle in a copy: add one and remove it again through its handle, the others stay
 			if(m.nf[i] < MAXL) { auto fh = obj(i)->appendFilter([](uint32_t &) { return false; }); bool r = obj(i)->removeFilter(fh); vf_assert(r, 141); }
@@ -470,13 +474,13 @@ extern "C" void harness()
 #ifdef INSTRUMENTED_CV
 		const uint32_t cbefore = obj(i)->currentCounter.value;
 #else
-		const uint32_t cbefore = obj(i)->currentCounter;
+		const uint32_t cbefore = obj(i)->currentCounter.load();
 #endif
 		g_tr.clear(); (*obj(i))(1u);
 #ifdef INSTRUMENTED_CV
 		const uint32_t cafter = obj(i)->currentCounter.value;
 #else
-		const uint32_t cafter = obj(i)->currentCounter;
+		const uint32_t cafter = obj(i)->currentCounter.load();
 #endif
 		if(cafter < cbefore) {
 			// the counter wrapped DURING this invocation: C19 allows exactly this invocation to also call what was added during it
